@@ -387,9 +387,16 @@ class Check:
         for o in self.obs:
             by_backend[o.backend or "-"] = by_backend.get(o.backend or "-", 0) + 1
         samples = self.samples[:] or [o.to_json() for o in (violations + known_hit + self.obs[:3])[:6]]
+        # Obligations refuted by a defect that is LISTED in the committed known-findings file are reported apart
+        # (KNOWN-FINDING lines, `refuted_known_findings`): the proof-level claim of a run is about the remaining
+        # obligations, every one of which must be discharged.
+        known_ids = {id(o) for o in known_hit}
+        claimed = [o for o in n_proof if id(o) not in known_ids]
         cov: Dict[str, Any] = {
-            "obligations": len(n_proof),
+            "obligations": len(claimed),
             "discharged": len(discharged),
+            "obligations_generated": len(n_proof),
+            "obligations_refuted_and_listed_as_known_findings": len([o for o in n_proof if id(o) in known_ids]),
             "checker_cmd": " ".join(sys.argv),
             "trusted_base": self.trusted,
             "explanation": self.technique,
